@@ -20,10 +20,10 @@ class C04(Prop):
     level = "fault_enumeration"
     title = "A query's answer does not depend on what was evaluated before it"
     campaigns = {
-        "quick": [("faultfree", 4000, 40), ("faults", 12000, 60), ("enumerated", 600, 60), ("the_enumerated", 1500, 60),
+        "quick": [("faultfree", 4000, 40), ("faults", 12000, 60), ("enumerated", 600, 60), ("the_enumerated", 1500, 60), ("rules_enumerated", 400, 60),
                   ("known:disjunction+for_all", 320, 30), ("known:disjunction+flatten", 320, 30),
                   ("known:disjunction+nested_query", 320, 30), ("known:predicate_with_repeated_variable", 320, 30), ("known:disjunction_over_different_variables", 320, 30), ("known:disjunction_of_multi_variable_conjunction", 320, 30), ("rules", 3000, 40), ("known:rule_tree_with_alternative_or_next", 320, 40), ("known:kwargs_form_variable_in_multi_variable_query", 320, 30), ("known:falsy_operand", 600, 30)],
-        "thorough": [("faultfree", 60000, 600), ("faults", 200000, 1500), ("enumerated", 12000, 1500), ("the_enumerated", 40000, 1200),
+        "thorough": [("faultfree", 60000, 600), ("faults", 200000, 1500), ("enumerated", 12000, 1500), ("the_enumerated", 40000, 1200), ("rules_enumerated", 8000, 1200),
                      ("known:disjunction+for_all", 4000, 300), ("known:disjunction+flatten", 4000, 300),
                      ("known:disjunction+nested_query", 8000, 300), ("known:predicate_with_repeated_variable", 4000, 300), ("known:disjunction_over_different_variables", 20000, 300), ("known:disjunction_of_multi_variable_conjunction", 20000, 300), ("rules", 60000, 600), ("known:rule_tree_with_alternative_or_next", 6000, 400), ("known:kwargs_form_variable_in_multi_variable_query", 40000, 400), ("known:falsy_operand", 40000, 400)],
     }
@@ -90,9 +90,9 @@ class C04(Prop):
         if campaign == "known:falsy_operand":
             cfg["alphabet"] = "falsy"
         region = campaign.split(":", 1)[1] if campaign.startswith("known:") and campaign != "known:falsy_operand" else None
-        if campaign in ("rules", "known:rule_tree_with_alternative_or_next"):
+        if campaign in ("rules", "rules_enumerated", "known:rule_tree_with_alternative_or_next"):
             cfg["vocab"] = [v for v in cfg["vocab"] if v not in ("forall", "kw", "nest", "flat")]
-            want = set() if campaign == "rules" else {"rule_tree_with_alternative_or_next"}
+            want = set() if campaign in ("rules", "rules_enumerated") else {"rule_tree_with_alternative_or_next"}
             for _ in range(80):
                 world = G.gen_world(rng, cfg)
                 pool = G.gen_rule_pool(rng, cfg, world)
@@ -115,9 +115,9 @@ class C04(Prop):
                 t["quant"] = "the"
                 pool["queries"].append(t)
         the_ids = [q["id"] for q in pool["queries"] if q["quant"] == "the"]
-        if campaign == "enumerated":
+        if campaign in ("enumerated", "rules_enumerated"):
             plan = {"world": world, "pool": pool, "ops": [], "cfg": cfg, "enumerate": rng.choice(an_ids)}
-            if rng.random() < 0.5:
+            if campaign == "enumerated" and rng.random() < 0.5:
                 # enumerate the crash points of the `the` variant of that query as well
                 q = [x for x in pool["queries"] if x["id"] == plan["enumerate"]][0]
                 t = copy.deepcopy(q)
